@@ -942,6 +942,20 @@ fn c08(case: &Case, ctx: &Ctx, rpt: &mut Report, rng: &mut Rng) {
             );
         }
     }
+    // The owned glob partitions like the borrowed one.
+    if let Some((op, og)) = guarded(|| case.glob.clone().into_owned().partition()) {
+        rpt.evaluations += 1;
+        let same = op == prefix && og.as_ref().map(|g| g.to_string()) == post.as_ref().map(|g| g.to_string());
+        if !same {
+            rpt.disagreement(
+                &ctx.known,
+                "owned-glob-partitions-differently",
+                None,
+                json!({"case": witness_base, "owned_prefix": op.to_string_lossy(), "owned_postfix": og.map(|g| g.to_string())}),
+            );
+        }
+        rpt.bucket("owned-partition-compared");
+    }
     // Paths: candidates of the original plus prefix mutations, canonical only.
     let mut paths: Vec<String> = case.paths.clone();
     if let Some(post) = &post {
@@ -1256,7 +1270,7 @@ pub fn c09_key(ast: Option<&Ast>) -> Option<&'static str> {
         },
         _ => false,
     });
-    if has_optional_rep_with_sep {
+    if has_optional_rep_with_sep && ast.has_feature(&|t, _| matches!(t.node, Node::Tree { .. })) {
         return Some("optional-repetition-of-components-judged-exhaustive");
     }
     None
@@ -1285,7 +1299,8 @@ fn c09_paths(q: &Queried, is_match: &dyn Fn(&str) -> Option<bool>, paths: &[Stri
         for _ in 0..4 {
             let k = rng.range(1, 3);
             let mut d = p.clone();
-            for _ in 0..k {
+            let mut child = String::new();
+            for n in 0..k {
                 if !d.ends_with('/') || d.is_empty() {
                     if !d.is_empty() {
                         d.push('/');
@@ -1293,6 +1308,9 @@ fn c09_paths(q: &Queried, is_match: &dyn Fn(&str) -> Option<bool>, paths: &[Stri
                 }
                 let name: &String = rng.pick(&names);
                 d.push_str(name);
+                if n == 0 {
+                    child = d.clone();
+                }
             }
             if !gpath::is_canonical(&d) {
                 continue;
@@ -1304,7 +1322,7 @@ fn c09_paths(q: &Queried, is_match: &dyn Fn(&str) -> Option<bool>, paths: &[Stri
             rpt.evaluations += 1;
             pairs += 1;
             if !got {
-                let key = if p.is_empty() || p == "/" {
+                let key = if (p.is_empty() || p == "/") && is_match(&child) == Some(false) {
                     Some("matches-empty-path-but-not-its-children")
                 }
                 else {
@@ -1664,6 +1682,36 @@ fn c19(case: &Case, ctx: &Ctx, rpt: &mut Report, rng: &mut Rng, stream: &ExprStr
             return;
         },
     };
+    // Owned matched text returns the same captures as the borrowed matched text it was made from.
+    for p in &case.paths {
+        let cand = CandidatePath::from(p.as_str());
+        let res = guarded(|| {
+            case.glob.matched(&cand).map(|m| {
+                let a = m.to_owned();
+                let borrowed: Vec<Option<String>> = (0..ncap + 3).map(|i| m.get(i).map(|s| s.to_string())).collect();
+                let to_owned: Vec<Option<String>> = (0..ncap + 3).map(|i| a.get(i).map(|s| s.to_string())).collect();
+                let b = m.into_owned();
+                let into_owned: Vec<Option<String>> = (0..ncap + 3).map(|i| b.get(i).map(|s| s.to_string())).collect();
+                (borrowed, to_owned, into_owned)
+            })
+        });
+        if let Some(Some((b, t, i))) = res {
+            rpt.evaluations += 1;
+            rpt.bucket("owned-matched-text-compared");
+            if b.iter().skip(1).any(|c| c.is_none()) {
+                rpt.bucket("owned-matched-text-with-non-participating-capture");
+            }
+            if b != t || b != i {
+                rpt.disagreement(
+                    &ctx.known,
+                    "owned-matched-text-differs-from-borrowed",
+                    None,
+                    json!({"expr": clip(case.expr), "path": clip(p), "borrowed": b, "to_owned": t, "into_owned": i}),
+                );
+                break;
+            }
+        }
+    }
     let display = case.glob.to_string();
     // Routes. The source string of some routes is dropped and its buffer overwritten before the
     // observations are taken, so a dangling borrow would show.
@@ -1943,7 +1991,21 @@ impl Monitor for GroupA {
                 match self.id {
                     "C09" => c09_paths(&q, &is_match, &case.paths, &case.alphabet, case.ast.as_ref(), ctx, rpt, &mut rng),
                     "C10" => c10_paths(&q, &is_match, &case.paths, ctx, rpt, &[]),
-                    "C11" => c11_paths(&q, &is_match, &case.paths, lists_sep, ctx, rpt, &mut rng, &case.alphabet),
+                    "C11" => {
+                        c11_paths(&q, &is_match, &case.paths, lists_sep, ctx, rpt, &mut rng, &case.alphabet);
+                        // The same pattern after conversion to an owned value.
+                        for (route, owned) in [
+                            ("into_owned", guarded(|| case.glob.clone().into_owned())),
+                            ("from_str", guarded(|| case.expr.parse::<Glob<'static>>().ok()).flatten()),
+                        ] {
+                            if let Some(o) = owned {
+                                let qo = query(&o, json!({"glob": clip(case.expr), "route": route}), false, model_of(&[case.expr]), &[case.expr]);
+                                let is_match_o = |p: &str| guarded(|| o.is_match(p));
+                                c11_paths(&qo, &is_match_o, &case.paths, lists_sep, ctx, rpt, &mut rng, &case.alphabet);
+                                rpt.bucket("owned-route-checked");
+                            }
+                        }
+                    },
                     _ => {
                         c12_paths(&q, &is_match, &case.paths, ctx, rpt, only_rooted_tree);
                         if let Some(ast) = &case.ast {
